@@ -2,6 +2,7 @@ package main
 
 import (
 	"fmt"
+	"strconv"
 	"strings"
 )
 
@@ -242,10 +243,18 @@ func malformed(valid string) string {
 		i := rng.Intn(len(f) + 1)
 		f = append(f[:i:i], append([]string{fmt.Sprint(rng.Intn(5))}, f[i:]...)...)
 	case 2, 3: // junk in one field
+		if len(f) == 0 {
+			return "x"
+		}
 		f[rng.Intn(len(f))] = junkFields[rng.Intn(len(junkFields))]
 	case 4: // NOT malformed: a non-canonical spelling of one field (same value)
+		if len(f) == 0 {
+			return "x"
+		}
 		i := rng.Intn(len(f))
-		f[i] = noncanon(f[i])
+		if _, err := strconv.ParseInt(f[i], 10, 64); err == nil {
+			f[i] = noncanon(f[i])
+		}
 	case 5: // trailing or leading slash / empty string / no slash
 		switch rng.Intn(4) {
 		case 0:
@@ -259,6 +268,9 @@ func malformed(valid string) string {
 		}
 	default: // few fields
 		k := rng.Intn(4)
+		if k > len(f) {
+			k = len(f)
+		}
 		f = f[:k]
 	}
 	return strings.Join(f, "/")
